@@ -4,6 +4,7 @@ batched and series are sharded.
 -/
 import PromqlVerif.Proofs.Den
 import PromqlVerif.Proofs.Grid
+import PromqlVerif.Proofs.IterProof
 namespace PromqlVerif.C02
 open PromqlVerif Val
 
@@ -55,6 +56,15 @@ theorem stale_marker_hides_series (lookback ref t0 : Int) (v : V) (h0 : t0 < ref
     selectSample lookback ref [⟨t0, .num v⟩, ⟨ref, (.stale : SVal V)⟩] = none := by
   have h1 : t0 ≤ ref := by omega
   simp [selectSample, latestAtOrBefore, h1]
+
+/-- the engine's per-series scan - `selectPoint` driving Prometheus' `MemoizedSeriesIterator`
+through the step times of a query - returns at every step what the declarative selection
+returns, for every sorted sample list, every lookback delta and every non-decreasing sequence of
+reference times (any start, step, offset and @, any batching of the steps) -/
+theorem memoized_scan_is_reference (S : List (Sample V)) (hs : SortedT S) (delta : Int) (hd : 0 ≤ delta)
+    (refs : List Int) (hr : refs.Pairwise (· ≤ ·)) :
+    selectPointsM delta (Memo.new S) refs = refs.map (fun r => selectSample delta r S) :=
+  selectPoints_along_steps S hs delta hd refs hr
 
 /-- the leaf cursor protocol enumerates exactly the step grid, for every step count -/
 theorem cursor_enumerates_grid (w : Window) (hs : 0 < w.step) (hle : w.start ≤ w.stop) (B : Nat) (hB : 0 < B) :
